@@ -182,3 +182,20 @@ def run(ctx):
     if spec_bad:
         raise core.Infra("PrintfOps.tla disagrees with glibc on %d directives (specification error, not a frigg violation), e.g. %s"
                          % (len(spec_bad), spec_bad[0]["event"][:300]))
+    extra_stage(ctx, binary)
+
+
+def extra_stage(ctx, binary):
+    """Beyond the listed properties (NOTE only, spec/Fmt/ExtraTrace.tla): escape_fmt over every byte value and pairs of the
+    special ones, to_allocated_string over radix / precision."""
+    specials = [0, 9, 10, 34, 39, 92, 32, 65, 122, 48, 127, 128, 255, 31, 126]
+    ex = [{"in": [b], "v": b, "radix": r, "prec": pr} for b in range(256) for r, pr in ((10, 1), (16, 4), (2, 0), (8, 12))][::3]
+    ex += [{"in": [a, b], "v": a * 1000 + b, "radix": 10, "prec": 1} for a in specials for b in specials]
+    ex += [{"in": [], "v": 0, "radix": 10, "prec": p0} for p0 in (0, 1, 3)]
+    hp = os.path.join(ctx.work, "pf_extra.hist")
+    core.write_ndjson(hp, ex)
+    tp = os.path.join(ctx.work, "extra.trace")
+    xbin, _ = build.build("extra", ["extra.cpp"], compiler="g++", flags=["-fno-sanitize=nonnull-attribute"])
+    core.run_histories(xbin, [], hp, tp, len(ex), max_restarts=20)
+    ctx.cov["beyond_the_list_cases"] = len(ex)
+    ctx.validate("Fmt", "ExtraTrace", "ExtraTrace.cfg", tp, "beyond the list: escape_fmt, to_allocated_string (NOTE only)")
